@@ -145,6 +145,17 @@ pub async fn insert_async<'a>(cache: &'a Path, key: &'a str, opts: WriteOpts) ->
         .unwrap())
 }
 
+/// Parses the integrity string of an index entry. An entry whose integrity
+/// does not parse, or parses to no hash at all, cannot address any content and
+/// is treated like a damaged entry.
+fn parse_entry_integrity(integrity: &str) -> Option<Integrity> {
+    let sri: Integrity = integrity.parse().ok()?;
+    if sri.hashes.is_empty() {
+        return None;
+    }
+    Some(sri)
+}
+
 /// Raw index Metadata access.
 pub fn find(cache: &Path, key: &str) -> Result<Option<Metadata>> {
     let bucket = bucket_path(cache, key);
@@ -154,9 +165,9 @@ pub fn find(cache: &Path, key: &str) -> Result<Option<Metadata>> {
         .fold(None, |acc, entry| {
             if entry.key == key {
                 if let Some(integrity) = entry.integrity {
-                    let integrity: Integrity = match integrity.parse() {
-                        Ok(sri) => sri,
-                        _ => return acc,
+                    let integrity = match parse_entry_integrity(&integrity) {
+                        Some(sri) => sri,
+                        None => return acc,
                     };
                     Some(Metadata {
                         key: entry.key,
@@ -186,9 +197,9 @@ pub async fn find_async(cache: &Path, key: &str) -> Result<Option<Metadata>> {
         .fold(None, |acc, entry| {
             if entry.key == key {
                 if let Some(integrity) = entry.integrity {
-                    let integrity: Integrity = match integrity.parse() {
-                        Ok(sri) => sri,
-                        _ => return acc,
+                    let integrity = match parse_entry_integrity(&integrity) {
+                        Some(sri) => sri,
+                        None => return acc,
                     };
                     Some(Metadata {
                         key: entry.key,
@@ -279,7 +290,7 @@ pub fn ls(cache: &Path) -> impl Iterator<Item = Result<Metadata>> {
                     if let Some(i) = se.integrity {
                         Some(Metadata {
                             key: se.key,
-                            integrity: i.parse().unwrap(),
+                            integrity: parse_entry_integrity(&i)?,
                             time: se.time,
                             size: se.size,
                             metadata: se.metadata,
